@@ -188,3 +188,106 @@ pub fn sweep(s: &mut Session, cmd: &Value) -> Value {
     }
     json!({"ok": true, "evaluations": evals + api, "expressions": evals, "api_calls": api, "with_result": ok_results, "parse_errors": parse_errors, "eval_errors": eval_errors, "slowest": {"ms": slowest.0 as u64, "expr": slowest.1}, "findings": findings})
 }
+
+/// {"op":"c08_poison","vars":[..]}: arbitrary memory images behind typed values.  For every listed
+/// variable, every 8-byte word of its in-memory representation (header of a Vec / String /
+/// VecDeque / HashMap / BTreeMap / Rc / RefCell ..., up to 8 words) is overwritten in turn with
+/// each poison value; the variable and a few expressions on it are evaluated and rendered; the
+/// word is restored.  Nothing may panic, abort, hang or allocate without bound.
+pub fn poison(s: &mut Session, cmd: &Value) -> Value {
+    use bugstalker::debugger::variable::dqe::{Dqe, Selector};
+    use bugstalker::debugger::variable::value::Value as V;
+    use std::os::unix::fs::FileExt;
+    let vars: Vec<String> = serde_json::from_value(cmd["vars"].clone()).unwrap_or_default();
+    let pid = s.pid();
+    let tid = s.dbg.as_ref().unwrap().ecx().pid_on_focus();
+    let regs0 = nix::sys::ptrace::getregs(tid).ok();
+    let sp = regs0.map(|r| r.rsp).unwrap_or(0);
+    let mem = match std::fs::File::open(format!("/proc/{pid}/mem")) {
+        Ok(m) => m,
+        Err(e) => return json!({"ok": false, "error": e.to_string()}),
+    };
+    let t_all = std::time::Instant::now();
+    let mut findings: Vec<Value> = vec![];
+    let (mut evals, mut images, mut with_value) = (0u64, 0u64, 0u64);
+    let mut slowest = (0u128, String::new());
+    let mut covered: Vec<Value> = vec![];
+    for name in &vars {
+        let d = s.dbg.as_ref().unwrap();
+        let addr_q = Dqe::Address(Box::new(Dqe::Variable(Selector::by_name(name, true))));
+        let Ok(res) = d.read_variable(addr_q) else { continue };
+        let Some(V::Pointer(p)) = res.first().map(|q| q.value().clone()) else { continue };
+        let (Some(addr), Some(size)) = (p.value.map(|x| x as usize as u64), p.target_type_size) else { continue };
+        let words = ((size + 7) / 8).min(8);
+        covered.push(json!({"var": name, "addr": addr, "size": size, "words": words}));
+        let exprs = [name.clone(), format!("{name}[0]"), format!("{name}[1..3]"), format!("*{name}"), format!("~{name}")];
+        for w in 0..words {
+            let wa = addr + w * 8;
+            let mut ob = [0u8; 8];
+            if mem.read_exact_at(&mut ob, wa).is_err() {
+                continue;
+            }
+            let orig = u64::from_le_bytes(ob);
+            let all = [0u64, 1, 7, 8, 0x10_0000, u64::MAX, 1 << 63, (1 << 63) - 1, u64::MAX - 7, 0x7fff_ffff_f000, 0x0000_8000_0000_0000, sp, wa, addr, orig.wrapping_add(1), orig.wrapping_sub(1), orig ^ 0xff, orig << 8];
+            let few = [0u64, 1, 8, u64::MAX, 1 << 63, sp, wa, orig.wrapping_add(1), orig ^ 0xff];
+            let poisons: &[u64] = if cmd["all_poisons"] == true { &all } else { &few };
+            for &pz in poisons {
+                if pz == orig {
+                    continue;
+                }
+                images += 1;
+                let d = s.dbg.as_ref().unwrap();
+                if d.write_memory(wa as usize, pz as usize).is_err() {
+                    continue;
+                }
+                for e in &exprs {
+                    use chumsky::Parser;
+                    evals += 1;
+                    let t0 = std::time::Instant::now();
+                    let r = catch_unwind(AssertUnwindSafe(|| {
+                        let Ok(q) = bugstalker::ui::command::parser::expression::parser().parse(e.as_str()).into_result() else { return 0 };
+                        match d.read_variable(q) {
+                            Ok(res) => {
+                                for q in &res {
+                                    let _ = crate::valw::vjson(q.value());
+                                }
+                                if res.is_empty() { 0 } else { 1 }
+                            }
+                            Err(_) => 0,
+                        }
+                    }));
+                    let ms = t0.elapsed().as_millis();
+                    if ms > slowest.0 {
+                        slowest = (ms, format!("{e} with word {w} of {name} = {pz:#x}"));
+                    }
+                    match r {
+                        Ok(1) => with_value += 1,
+                        Ok(_) => {}
+                        Err(pn) => {
+                            let text = panic_text(pn);
+                            let site = text.split(" at ").next().unwrap_or("").chars().take(80).collect::<String>();
+                            if findings.len() < 40 {
+                                findings.push(json!({"sig": format!("C08:poison:panic:{}", crate::common::sanitize(&site)), "detail": format!("`{e}` with word {w} of `{name}` ({size} bytes at {addr:#x}) set to {pz:#x} (was {orig:#x}): {text}")}));
+                            }
+                        }
+                    }
+                    if ms > 60_000 {
+                        findings.push(json!({"sig": "C08:poison:hang", "detail": format!("`{e}` with word {w} of `{name}` set to {pz:#x} took {ms} ms")}));
+                    }
+                }
+                let d = s.dbg.as_ref().unwrap();
+                let _ = d.write_memory(wa as usize, orig as usize);
+            }
+            // restored?
+            let mut nb = [0u8; 8];
+            if mem.read_exact_at(&mut nb, wa).is_ok() && u64::from_le_bytes(nb) != orig {
+                findings.push(json!({"sig": "MACHINERY:poison-not-restored", "detail": format!("word {w} of {name}")}));
+            }
+        }
+    }
+    let rss_kb: u64 = std::fs::read_to_string("/proc/self/status").ok().and_then(|s| s.lines().find(|l| l.starts_with("VmHWM:")).and_then(|l| l.split_whitespace().nth(1).and_then(|x| x.parse().ok()))).unwrap_or(0);
+    if rss_kb > 4_000_000 {
+        findings.push(json!({"sig": "C08:poison:memory-blowup", "detail": format!("peak resident set of the debugger {rss_kb} kB")}));
+    }
+    json!({"ok": true, "wall_ms": t_all.elapsed().as_millis() as u64, "evaluations": evals, "images": images, "with_value": with_value, "peak_rss_kb": rss_kb, "variables": covered, "slowest": {"ms": slowest.0 as u64, "what": slowest.1}, "findings": findings})
+}
